@@ -15,10 +15,13 @@
  *      yamlrt   (export root to memory, import_yaml_from_string into a fresh root)
  *      yamlrtf  (the same with import_yaml_from_file on an fmemopen stream)
  *      yamltree (export root, parse the text with libyaml alone and dump the node tree)
+ *      yamlinto / yamlintof (export root, import the text into aux, which may hold a tree already)
+ *      yamlimp T (import the YAML text T into root, which may hold a tree already)
  *      calrt    (vnacal mode: vnacal_save to memory / vnacal_load, digest of the loaded roots)
  */
 #define _GNU_SOURCE
 #include <errno.h>
+#include <unistd.h>
 #include <stdio.h>
 #include <stdlib.h>
 #include <string.h>
@@ -332,6 +335,27 @@ int main(int argc, char **argv)
 		yaml_parser_delete(&parser);
 		e = 0;
 	    }
+	} else if (strcmp(w[0], "yamlinto") == 0 || strcmp(w[0], "yamlintof") == 0) {
+	    FILE *yo = open_memstream(&ytext, &ylen);
+	    errno = 0;
+	    ret = vnaproperty_export_yaml_to_file(ROOT(), yo, "mem", errfn, NULL);
+	    e = errno;
+	    fclose(yo);
+	    if (ret == 0) {
+		errno = 0;
+		if (w[0][8] == 'f') {
+		    FILE *yi = fmemopen(ytext, ylen ? ylen : 1, "r");
+		    ret = vnaproperty_import_yaml_from_file(&aux, yi, "mem", errfn, NULL);
+		    fclose(yi);
+		} else {
+		    ret = vnaproperty_import_yaml_from_string(&aux, ytext, errfn, NULL);
+		}
+		e = ret == 0 ? 0 : errno;
+	    }
+	} else if (strcmp(w[0], "yamlimp") == 0 && !mode) {
+	    errno = 0;
+	    ret = vnaproperty_import_yaml_from_string(&root, a, errfn, NULL);
+	    e = ret == 0 ? 0 : errno;
 	} else if (strcmp(w[0], "calrt") == 0 && mode) {
 	    /* save the whole vnacal_t to memory, load it, digest of global and calibration roots */
 	    char *ctext = NULL; size_t clen = 0;
@@ -340,7 +364,7 @@ int main(int argc, char **argv)
 	    char path[4096];
 	    vnacal_t *v2;
 	    (void)ctext; (void)clen; (void)tmpl;
-	    snprintf(path, sizeof(path), "%s/calrt.vnacal", dir ? dir : "/tmp");
+	    snprintf(path, sizeof(path), "%s/calrt_%ld.vnacal", dir ? dir : "/tmp", (long)getpid());
 	    errno = 0;
 	    ret = vnacal_save(vcp, path);
 	    e = errno;
